@@ -147,6 +147,9 @@ class InstrumentMachine(Machine):
                 v = self._invalid(rng, kind, a)
                 if v is not None:
                     ops.append({"op": "set", "attr": a, "value": v, "invalid": True})
+            elif 0.54 <= u < 0.57 and kind == "spectrometer":
+                # a new pixel calibration with the same ends and the same number of pixels, different edges in between
+                ops.append({"op": "set.same_extent", "seed": rng.randrange(1 << 30)})
             elif u < 0.54:
                 # the caller keeps using the container it handed over: mutate it (must not reach the instrument), or edit it
                 # and assign the very same object again (must be picked up)
@@ -457,6 +460,27 @@ class InstrumentMachine(Machine):
                                     "only" % (type(e).__name__, e))
             c.warm.update(["min_wavelength", "max_wavelength", "spectral_bins"])
             env.event(k, "ok", ",".join(op["what"]))
+        elif k == "set.same_extent":
+            if c.kind != "spectrometer":
+                return "noop"
+            import random as _random
+            r = _random.Random(op["seed"])
+            new = []
+            for arr in c.spec["wavelength_to_pixel"]:
+                arr = [float(x) for x in arr]
+                if len(arr) < 3:
+                    new.append(arr)
+                    continue
+                inner = sorted(r.uniform(arr[0], arr[-1]) for _ in range(len(arr) - 2))
+                cand = [arr[0]] + inner + [arr[-1]]
+                new.append(cand if all(b > a for a, b in zip(cand, cand[1:])) else arr)
+            self._apply(c, c.obj, "wavelength_to_pixel", new, subject=True)
+            c.spec["wavelength_to_pixel"] = new
+            if c.warm:
+                c.stale_risk |= c.warm
+            self._check_params(c, c.obj, c.spec, "subject")
+            env.probe("same_extent_recalibration")
+            env.event(k, "ok", "|" + ",".join(sorted(c.warm)))
         elif k == "caller.mutate":
             h = c.handed.get(op["attr"])
             if h is None or op["attr"] not in c.spec:
